@@ -43,6 +43,14 @@ def err_kind(e):
     return 'E:Other'
 
 
+def full_state(d):
+    """ The complete bit-generator state: the 128-bit state AND the buffered 32-bit half (32-bit draws consume the
+        buffer without advancing the 128-bit state) """
+    st = d.state
+    if st is None: return None
+    return (st['state']['state'], st['state']['inc'], st.get('has_uint32'), st.get('uinteger'))
+
+
 def observe(d):
     return dict(seed=int(d.seed or 0), ind=int(d.ind), ready=int(bool(d.ready)), init=int(bool(d.initialized)),
                 called=int(d.called), hist=len(d.history))
@@ -168,7 +176,7 @@ def run_impl_sequence(case, modulo):
                     arg = n
                     size = int(np.prod(n))
                 lines.append(f"rvs {size} {int(reset)}")
-                pre = d.state_int
+                pre = full_state(d)
                 out = d.rvs(arg, reset=reset)
                 if size: start = pre
                 # output length check (C03 covers values)
@@ -180,7 +188,7 @@ def run_impl_sequence(case, modulo):
                 d.reset(op[1])
             elif op[0] == 'direct':
                 lines.append(f"direct {op[1]}")
-                pre = d.state_int
+                pre = full_state(d)
                 d.rng.random(op[1])
                 start = pre
         except Exception as e:
@@ -299,7 +307,7 @@ def record_run(cfg):
         return h
 
     def check_direct(d, h):
-        st = d.state_int
+        st = full_state(d)
         if id(d) in last and last[id(d)] is not None and st != last[id(d)] and d.initialized:
             h['ops'].append(dict(op='direct 1', start=last[id(d)], obs=None))
 
@@ -313,7 +321,7 @@ def record_run(cfg):
             h = entry(self)
             check_direct(self, h)
             depth[0] += 1
-            pre = self.state_int
+            pre = full_state(self)
             err = 'ok'
             ti_default = None
             if name == 'jump_dt':
@@ -332,7 +340,7 @@ def record_run(cfg):
                 line, start = fmt(self, a, kw, pre, ti_default)
                 o = observe(self); o['res'] = err; o['state'] = self.state_int
                 h['ops'].append(dict(op=line, start=start if err == 'ok' else None, obs=o))
-                last[id(self)] = self.state_int
+                last[id(self)] = full_state(self)
         return w
 
     def fmt_rvs(self, a, kw, pre, _):
@@ -371,7 +379,7 @@ def record_run(cfg):
     # final direct-use check
     for i, h in hist.items():
         d = h['dist']
-        if last.get(i) is not None and d.state_int != last[i]:
+        if last.get(i) is not None and full_state(d) != last[i]:
             h['ops'].append(dict(op='direct 1', start=last[i], obs=None))
     traces = {id(d): t for t, d in sim.dists.dists.items()}
     return dict(hist=hist, traces=traces, seeds=[d.seed for d in sim.dists.dists.values()], rand_seed=sim.pars.rand_seed,
@@ -469,6 +477,8 @@ def is_loop_op(op):
 def oracle_sequence(case, modulo):
     """ Real Dist, loop operations only (first init kept): no two draws may start from the same generator state """
     case = dict(case)
+    if case['family'] == 'constant':
+        return None   # np.full consumes no randomness: its "draws" do not start from (or advance) any generator state
     first_init = True; ops = []
     for op in case['ops']:
         if op[0] == 'init' and first_init and case['strict']:
@@ -501,7 +511,7 @@ def oracle_run(cfg):
     directs = {}
 
     def w(self, n=1, reset=False):
-        pre = self.state_int
+        pre = full_state(self)
         out = orig_rvs(self, n, reset=reset)
         if np.size(out) and self._size:
             key = pre
